@@ -421,6 +421,12 @@ impl Popen {
 
         let (mut child_stdin, mut child_stdout, mut child_stderr) = (None, None, None);
 
+        if let (&Redirection::Merge, &Redirection::Merge) = (&stdout, &stderr) {
+            return Err(PopenError::LogicError(
+                "Redirection::Merge not valid for both stdout and stderr",
+            ));
+        }
+
         match stdin {
             Redirection::Pipe => prepare_pipe(true, &mut self.stdin, &mut child_stdin)?,
             Redirection::File(file) => prepare_file(file, &mut child_stdin)?,
